@@ -149,6 +149,10 @@ for K in (2, 3):
         QM(('C12',) + (('C20',) if K == 2 and nm in ('other', 'array') else ()), 'cmpunit.%s.K%d' % (nm, K), 'harness/compare_unit.c', defs=['-DK=%d' % K, '-DKA=%d' % ka], unwind=K + 3, stub=['cJSON_Compare'],
            unwindset=ML(K + 3, 60) + ['memcmp.0:66', 'strcmp.0:5', 'keq.0:5'], cost=K * 10, tiers=('quick', 'thorough') if K == 2 else ('thorough',),
            functions=['cJSON_Compare', 'compare_double', 'get_object_item', 'case_insensitive_strcmp'], timeout=1500)
+    # objects with repeated member names: different key sets are unequal
+    QM(('C12',), 'cmpunit.object.dup.K%d' % K, 'harness/compare_unit.c', defs=['-DK=%d' % K, '-DKA=64', '-DDUPKEYS'], unwind=K + 3, stub=['cJSON_Compare'],
+       unwindset=ML(K + 3, 60) + ['memcmp.0:66', 'strcmp.0:5', 'keq.0:5'], cost=K * 10, tiers=('quick', 'thorough') if K == 2 else ('thorough',), witnesses=['end', 'dupkeys'],
+       functions=['cJSON_Compare', 'get_object_item', 'case_insensitive_strcmp'], timeout=1500)
 
 # ------------------------------------------------------------------ C19 sort
 import math
